@@ -15,7 +15,17 @@ type Agg struct {
 	Sets     map[string]string              `json:"sets"` // wire form (base64 of LE uint64s)
 	Samples  map[string][]json.RawMessage   `json:"samples"`
 	Notes    []string                       `json:"notes"`
+	runHash  uint64
 }
+
+// SetRunHash records the event-log hash of the run just executed (used by the
+// determinism self-test: same seed => same hash, in any process).
+func (a *Agg) SetRunHash(h uint64) {
+	if a != nil {
+		a.runHash = h
+	}
+}
+func (a *Agg) RunHash() uint64 { return a.runHash }
 
 func NewAgg() *Agg {
 	return &Agg{Counters: map[string]int64{}, sets: map[string]map[uint64]struct{}{}, Samples: map[string][]json.RawMessage{}}
